@@ -46,6 +46,8 @@ FAMILIES: Dict[str, Tuple[str, List[str]]] = {
     "prefixmid": ("S: x y ?0 | x A ?1 | x y ?2 ; A: y | ?3", ["x", "y", "z", "w"]),
     "prefixrec": ("S: A ?0 ?1 | A ?2 ?3 ; A: x | -", ["x", "y", "S", "A"]),
     "unreach": ("S: x ?0 ; A: ?1 A | B ; B: ?2 | -", ["x", "y", "A", "B"]),
+    # an alternative made only of nullable non-terminals (not literally empty), listed after an explicit one
+    "nullalt": ("S: A ?0 | ?3 ; A: ?1 | B ; B: ?2 | -", ["x", "y", "z", "-"]),
     # a plain WORD next to a keyword made of a WORD
     "kwword": ("S: z ?0 | WORD ?1 | ?2 ; A: WORD | z A | -", ["x", "z", "WORD", "A", "S", "-"]),
     # a symbol that derives only the empty string, at the head of a production
